@@ -169,3 +169,39 @@ def dist_target_equals(w, signed, timeout_ms=30000):
     s.add(vz >= z3.BitVecVal(lo, symex.W), vz <= z3.BitVecVal(hi, symex.W), nz != (fint == vz))
     r = s.check()
     return str(r), (s.model() if r == z3.sat else None)
+
+
+def swizzle_pool(n):
+    """the fields that receive randomising targets are drawn from ALL random fields handed to swizzle_field_l: the first draw asks
+    for an index over the whole list and the field at the drawn index is the one that is swizzled (RNG stub returns the last index)"""
+    from vsc.model.field_scalar_model import FieldScalarModel
+    from vsc.model.solvegroup_swizzler_partsel import SolveGroupSwizzlerPartsel
+    fields = []
+    for i in range(n):
+        f = FieldScalarModel("f%d" % i, 8, False, True)
+        f.is_used_rand = True
+        fields.append(f)
+    asked = []
+
+    class RS(object):
+        def randint(self, a, b):
+            asked.append((a, b))
+            return b
+    picked = []
+    swz = SolveGroupSwizzlerPartsel(RS(), None)
+    swz.swizzle_field = lambda f, rs, bound_m: picked.append(f) or None
+
+    class FakeBtor(object):
+        SAT = 1
+
+        def Sat(self):
+            return 1
+
+        def Assume(self, n):
+            pass
+
+        def Assert(self, n):
+            pass
+    swz.swizzle_field_l(list(fields), None, {}, FakeBtor())
+    ok = bool(asked) and asked[0] == (0, n - 1) and bool(picked) and picked[0] is fields[n - 1] and len(set(id(p) for p in picked)) == min(n, 4)
+    return ok, {"asked": asked[:5], "picked": [p.name for p in picked]}
